@@ -51,3 +51,32 @@ def sensitivity(text, goals, param, subs=None, nmax=4, settings=None):
         res["goals"].append(g)
     _reset_settings()
     return res
+
+
+def sensitivity_cli(text, goals, param, subs=None, nmax=4):
+    """the printed lines of `polar.py prog --goals ... -sens_diff p` and `-sens p` (real SensitivityAction), evaluated"""
+    from .analyze import cli_goals, eval_printed
+    out = {}
+    gs = ["E(" + "*".join(f"{v}**{k}" for v, k in g) + ")" for g in goals]
+    for method, flag in (("cli_sens_diff", "-sens_diff"), ("cli_sens", "-sens")):
+        r = cli_goals(text, gs, -1, extra_args=[flag, param])
+        if r.get("error"):
+            out[method] = {"error": r["error"]}
+            continue
+        rows = []
+        for l in r["lines"]:
+            if l.startswith("∂") and " = " in l and "| n=" not in l:
+                rhs = l.split(" = ", 1)[1]
+                parts = [p.strip() for p in rhs.split(";")]
+                try:
+                    vals = []
+                    for n in range(nmax + 1):
+                        if n < len(parts) - 1:
+                            vals.append(eval_printed(parts[n], n, subs))
+                        else:
+                            vals.append(eval_printed(parts[-1], n, subs))
+                    rows.append({"raw": l[:300], "values": vals})
+                except Exception as ex:  # noqa
+                    rows.append({"raw": l[:300], "unparsed": str(ex)[:100]})
+        out[method] = {"rows": rows}
+    return out
